@@ -64,6 +64,11 @@ fn replay_known(out: &mut Out) {
         ("with_agg_empty", "MATCH (n:D) WITH count(*) AS c RETURN c AS x", vec![vec![i(0)]]),
         ("sum_distinct", "MATCH (n) RETURN sum(DISTINCT 5) AS x", vec![vec![i(5)]]),
         (
+            "match_unwind_with",
+            "MATCH (n:A) UNWIND [1, 2] AS x WITH x AS y RETURN y AS x",
+            vec![vec![i(1)], vec![i(2)], vec![i(1)], vec![i(2)]],
+        ),
+        (
             "collect_distinct_entities",
             "MATCH (n:A) RETURN size(collect(DISTINCT n)) AS x",
             vec![vec![i(2)]],
